@@ -209,6 +209,55 @@ func c01One(c *vk.Ctx, prop string, e reg.Entry, idx []int, id string) uint64 {
 					}
 				}
 			}
+			// (a'') the same contents under the other spellings a server uses for the same wire
+			// layout (Decimal(P, S) at both ends of each width's precision range, time zones):
+			// typed target and inferred target must both give the values back
+			if !noRef(e.Label) && len(idx) > 0 && rev == c01Revs[0] {
+				for _, sp := range serverSpellings(col.T.Name) {
+					st, perr := refcol.Parse(sp)
+					if perr != nil {
+						continue
+					}
+					var rw refwire.W
+					refcol.EncodeBlockBody(&rw, rev, refwire.BlockInfo{BucketNum: -1}, len(want), []refcol.BlockCol{{Name: "col", Type: st, Vals: want}})
+					// typed target: only where the equivalence is a documented one (element-wise under
+					// Array / Nullable / LowCardinality; Map and Tuple compare their parameters as text)
+					if !strings.Contains(e.Label, "Map(") && !strings.Contains(e.Label, "Tuple(") {
+						f2, _ := reg.Wrap(e.New(), e.Label)
+						var b2 proto.Block
+						if err := b2.DecodeBlock(proto.NewReader(bytes.NewReader(rw.B)), rev, proto.Results{{Name: "col", Data: f2.C}}); err != nil {
+							fail("server-spelling-rejected", fmt.Sprintf("block of type %s into a %s target: %v", sp, e.Label, err))
+							return
+						}
+						if got := rowsCanon(f2); !refcol.Equal(anyList(got), anyList(want)) {
+							fail("server-spelling-decodes-wrong", fmt.Sprintf("block of type %s into a %s target: decoded %s, block holds %s", sp, e.Label, refcol.Show(anyList(got)), refcol.Show(anyList(want))))
+							return
+						}
+					}
+					if new(proto.ColAuto).Infer(proto.ColumnType(sp)) != nil {
+						continue
+					}
+					var res proto.Results
+					var b3 proto.Block
+					rd := proto.NewReader(bytes.NewReader(rw.B))
+					if err := b3.DecodeBlock(rd, rev, res.Auto()); err != nil {
+						fail("server-spelling-auto-rejected", fmt.Sprintf("block of type %s through Auto: %v", sp, err))
+						return
+					}
+					if left := leftover(rd); left != 0 || len(res) != 1 || res[0].Data.Rows() != len(want) {
+						fail("server-spelling-auto-shape", fmt.Sprintf("block of type %s through Auto: %d columns, %d bytes unread", sp, len(res), left))
+						return
+					}
+					if ac, ok := unwrapAuto(res[0].Data); ok && hasRow(ac) {
+						if aw, err := reg.WrapAs(ac, col.T, e.Label); err == nil {
+							if got := rowsCanonAs(aw, nil); got != nil && !refcol.Equal(anyList(got), anyList(want)) {
+								fail("server-spelling-auto-decodes-wrong", fmt.Sprintf("block of type %s through Auto: decoded %s, block holds %s", sp, refcol.Show(anyList(got)), refcol.Show(anyList(want))))
+								return
+							}
+						}
+					}
+				}
+			}
 			// (b) through automatic inference where the type is inferable
 			probe := new(proto.ColAuto)
 			if ierr := probe.Infer(col.C.Type()); ierr == nil {
@@ -247,6 +296,29 @@ func c01One(c *vk.Ctx, prop string, e reg.Entry, idx []int, id string) uint64 {
 
 func anyList(v []any) any { return v }
 
+// serverSpellings lists other type strings with the same wire layout as t, as a server
+// spells them: Decimal(P, S) for the fixed-width decimals (both ends of each precision
+// range), explicit time zones for the timestamps.
+func serverSpellings(t string) []string {
+	type rw struct{ from, to string }
+	var out []string
+	for _, r := range []rw{
+		{"Decimal32", "Decimal(1, 0)"}, {"Decimal32", "Decimal(9, 2)"},
+		{"Decimal64", "Decimal(10, 2)"}, {"Decimal64", "Decimal(18, 4)"},
+		{"Decimal128", "Decimal(19, 4)"}, {"Decimal128", "Decimal(38, 10)"},
+		{"Decimal256", "Decimal(39, 10)"}, {"Decimal256", "Decimal(76, 20)"},
+		{"DateTime64(3)", "DateTime64(3, 'UTC')"}, {"DateTime64(9)", "DateTime64(9, 'Europe/Berlin')"},
+	} {
+		if strings.Contains(t, r.from) {
+			out = append(out, strings.ReplaceAll(t, r.from, r.to))
+		}
+	}
+	if strings.Contains(t, "DateTime") && !strings.Contains(t, "DateTime64") && !strings.Contains(t, "DateTime(") {
+		out = append(out, strings.ReplaceAll(t, "DateTime", "DateTime('UTC')"))
+	}
+	return out
+}
+
 // unwrapAuto returns the column an inferred result holds (ColAuto only delegates the
 // Column interface; the row accessors live on the column inside).
 func unwrapAuto(r proto.ColResult) (proto.Column, bool) {
@@ -279,7 +351,7 @@ func rowsCanonAs(inferred, typed *reg.Col) (out []any) {
 
 // C01 — block encode -> decode is the identity for every column type and nesting.
 func C01(c *vk.Ctx) {
-	c.Rule("every column composition of the generated registry (45 base columns; Array / Nullable / LowCardinality / Map(String,.) / Map(.,String) / Tuple(.,String) wrappers wherever the exported generic constructors type-check, to depth 2) x every value sequence of length <= L (quick 2, thorough 3) over the per-type boundary alphabet (0, +-1, min, max, NaN/Inf/-0/denormal, strings of 0/1/127/128 bytes, nulls, empty and nested arrays, range ends of the date types) x revisions {54460, 54453, 51902} x output buffer {empty, 1 byte, 9 bytes pre-filled}; plus size-triggered cases (LowCardinality dictionaries of 254..257 and 65534..65537 distinct values, strings of 16383 / 16384 / 2^20-1 / 2^20 / 2^20+1 / 2^21-1 / 2^21 bytes in String, Array(String), LowCardinality(String) and Nullable(String), decoded into a fresh and into a used-and-Reset column). Oracles: typed decode into a fresh column, typed decode of the same contents as the reference server writes them (LowCardinality keys of 8, 16 and 64 bits), decode through Results.Auto where ColAuto.Infer accepts the type, independent reference decode (refcol) with exact consumption, buffer independence, re-encode equality, WriteBlock+Flush = EncodeBlock; the same run in the purego build must produce the same transcript. distinct_nontrivial = (composition, value sequence) cases with at least one row.")
+	c.Rule("every column composition of the generated registry (45 base columns; Array / Nullable / LowCardinality / Map(String,.) / Map(.,String) / Tuple(.,String) wrappers wherever the exported generic constructors type-check, to depth 2) x every value sequence of length <= L (quick 2, thorough 3) over the per-type boundary alphabet (0, +-1, min, max, NaN/Inf/-0/denormal, strings of 0/1/127/128 bytes, nulls, empty and nested arrays, range ends of the date types) x revisions {54460, 54453, 51902} x output buffer {empty, 1 byte, 9 bytes pre-filled}; plus size-triggered cases (LowCardinality dictionaries of 254..257 and 65534..65537 distinct values, strings of 16383 / 16384 / 2^20-1 / 2^20 / 2^20+1 / 2^21-1 / 2^21 bytes in String, Array(String), LowCardinality(String) and Nullable(String), decoded into a fresh and into a used-and-Reset column). Oracles: typed decode into a fresh column, typed decode of the same contents as the reference server writes them (LowCardinality keys of 8, 16 and 64 bits) and as the server spells the type (Decimal(P, S) at both ends of each width's precision range, explicit time zones; typed and inferred targets), decode through Results.Auto where ColAuto.Infer accepts the type, independent reference decode (refcol) with exact consumption, buffer independence, re-encode equality, WriteBlock+Flush = EncodeBlock; the same run in the purego build must produce the same transcript. distinct_nontrivial = (composition, value sequence) cases with at least one row.")
 	L := 2
 	if !c.Quick() {
 		L = 3
